@@ -161,7 +161,7 @@ static void check_exec(const Cfg &c, const Case &k, const Exec &ex, Delta &d, lo
     // the objective never sees a point outside the domain (direct, independent of the model)
     for(auto &e : L.ev) if (e.t == 'F') for(size_t m=0;m<e.nx/dm;m++){ d.evals++; if (!my_domain(c, L.x(e) + m*dm)){ d.viol("C20:objective-outside-domain", CJ, "objective called on " + vstr(L.x(e) + m*dm, dm)); break; } }
     // model state
-    bool cache_valid = false, best_init = false; std::string ctx = EDITNAME[0]; bool any_cb = false, any_cc = false; // context of a finding: which bookkeeping edits happened so far
+    bool cache_valid = false, best_init = false; std::string ctx = EDITNAME[0], edits_so_far; bool any_cb = false, any_cc = false; // context of a finding: which bookkeeping edits happened so far
     // a divergence of the callback sequence / velocity formula after clearBestParticles or clearCache is reported under one signature per context
     auto div = [&](const std::string &precise)->std::string{ return (any_cb || any_cc) ? "C20:diverges-from-model:" + ctx : precise; };
     bool has_cur[MAXP] = {false, false, false}, cur_in[MAXP] = {false, false, false}; double cur_x[MAXP][MAXD] = {{0}}, cur_f[MAXP] = {0, 0, 0};
@@ -175,7 +175,9 @@ static void check_exec(const Cfg &c, const Case &k, const Exec &ex, Delta &d, lo
         if (op.t == 'E'){
             bool clear_cache = (op.v == 1 || op.v == 4 || op.v == 5 || op.v == 6), clear_best = (op.v == 2 || op.v == 5), set_best = (op.v == 6);
             any_cb = any_cb || clear_best; any_cc = any_cc || clear_cache;
-            ctx = (any_cb && any_cc) ? "after-clearBestParticles+clearCache" : any_cb ? "after-clearBestParticles" : any_cc ? "after-clearCache" : std::string("after-") + EDITNAME[op.v];
+            edits_so_far += (edits_so_far.empty() ? "" : ";") + std::string(EDITNAME[op.v]);
+            // both kinds of reset in one history: the context names the exact edit sequence (a known finding of one sequence must not hide another one)
+            ctx = (any_cb && any_cc) ? "after-" + edits_so_far : any_cb ? "after-clearBestParticles" : any_cc ? "after-clearCache" : std::string("after-") + EDITNAME[op.v];
             if (clear_best){ best_init = false; user_best = false; for(size_t i=0;i<=n;i++) known[i] = false; for(size_t i=0;i<n;i++) pb[i].has = false; sb.has = false; reset_visits(); }
             if (set_best){ best_init = true; user_best = true; for(size_t i=0;i<=n;i++) known[i] = true; auto b = manual_best(c); for(size_t i=0;i<n;i++){ pb[i].has = false; for(size_t q=0;q<dm;q++) pb[i].x[q] = b[i*dm+q]; } sb.has = false; for(size_t q=0;q<dm;q++) sb.x[q] = b[n*dm+q]; reset_visits(); }
             if (clear_cache){ cache_valid = false; for(size_t i=0;i<n;i++){ has_cur[i] = false; pb[i].has = false; } sb.has = false; if (clear_best || set_best) reset_visits(); }
